@@ -247,6 +247,16 @@ theorem conditionsHold_of_contains (p c : Conditions) (a : Auth) (now : Nat) (h 
     · exact absurd c5 hcne
     · exact hall _ c5
 
+theorem any_congr_mem {α : Type} (f g : α → Bool) : ∀ (l : List α), (∀ x ∈ l, f x = g x) → l.any f = l.any g
+  | [], _ => rfl
+  | x :: xs, h => by
+    simp only [List.any_cons, h x List.mem_cons_self, any_congr_mem f g xs (fun y hy => h y (List.mem_cons_of_mem _ hy))]
+
+theorem filter_congr_mem {α : Type} (f g : α → Bool) : ∀ (l : List α), (∀ x ∈ l, f x = g x) → l.filter f = l.filter g
+  | [], _ => rfl
+  | x :: xs, h => by
+    simp only [List.filter_cons, h x List.mem_cons_self, filter_congr_mem f g xs (fun y hy => h y (List.mem_cons_of_mem _ hy))]
+
 /-! ## containment is transitive (attenuation composes along a chain) -/
 
 theorem narrows_trans (p q r : List String) (h1 : narrows p q = true) (h2 : narrows q r = true) : narrows p r = true := by
